@@ -50,6 +50,11 @@ def main(logs, srcroot='/tmp', rename=None):
             os.makedirs(dst, exist_ok=True)
             shutil.copy(os.path.join(src, 'patch%s.diff' % v), os.path.join(dst, 'patch.diff'))
             shutil.copy(os.path.join(src, 'demo%s.py' % v), os.path.join(dst, 'demo.py'))
+            og = os.path.join(src, 'patch%s.orig.diff' % v)
+            if os.path.exists(og) and open(og).read() != open(os.path.join(src, 'patch%s.diff' % v)).read():
+                # the author's patch as written (on an earlier commit of /repo); patch.diff is the same change carried
+                # over to the tree after later repairs touched neighbouring lines
+                shutil.copy(og, os.path.join(dst, 'patch_as_written.diff'))
             notes = open(os.path.join(src, 'notes.md')).read() if os.path.exists(os.path.join(src, 'notes.md')) else ''
             open(os.path.join(dst, 'notes_from_author.md'), 'w').write(notes)
             caught = sorted(c for c, x in r['checks'].items() if x['exit'] == 1 and x['violation_signatures'] > 0)
